@@ -37,6 +37,8 @@ type FanSpec struct {
 	ViaLoader bool `json:"viaLoader,omitempty"`
 	// CmdPadded (cmd fans): the read-back tool prints zero-padded decimals
 	CmdPadded bool `json:"cmdPadded,omitempty"`
+	// CmdChatty (cmd fans): the tools write a diagnostic to stderr while they answer normally (exit status 0)
+	CmdChatty bool `json:"cmdChatty,omitempty"`
 	// CmdOneTool (cmd fans): setPwm, getPwm and getRpm are one executable called with different arguments (the README's
 	// nvidia-settings example, ipmitool, liquidctl ...)
 	CmdOneTool bool `json:"cmdOneTool,omitempty"`
@@ -286,12 +288,15 @@ func buildWorld(ctx *Ctx, sc *Scenario) *World {
 		cmdScript(filepath.Join(dir, "set.sh"), "if [ -e "+dir+"/setfail ]; then exit 1; fi; echo \"$1\" > "+dir+"/pwm; echo \"$1\" >> "+dir+"/writes")
 		// while the file "garble" exists the tool answers with a message instead of the value (exit status 0)
 		// while the file "flaky" exists every second query is answered that way (a rate-limited embedded controller)
-		cmdScript(filepath.Join(dir, "get.sh"), "if [ -e "+dir+"/getfail ]; then echo 'device busy' >&2; exit 1; fi; if [ -e "+dir+"/flaky ]; then n=$(cat "+dir+"/flaky); n=$((n+1)); echo $n > "+dir+"/flaky; if [ $((n%2)) = 0 ]; then echo 'device busy'; exit 0; fi; fi; if [ -e "+dir+"/garble ]; then echo 'device busy'; elif [ -e "+dir+"/padded ]; then printf '%03d\\n' $(cat "+dir+"/pwm); else cat "+dir+"/pwm; fi")
+		cmdScript(filepath.Join(dir, "get.sh"), "if [ -e "+dir+"/getfail ]; then echo 'device busy' >&2; exit 1; fi; if [ -e "+dir+"/chatty ]; then echo 'warning: channel is under firmware control' >&2; fi; if [ -e "+dir+"/flaky ]; then n=$(cat "+dir+"/flaky); n=$((n+1)); echo $n > "+dir+"/flaky; if [ $((n%2)) = 0 ]; then echo 'device busy'; exit 0; fi; fi; if [ -e "+dir+"/garble ]; then echo 'device busy'; elif [ -e "+dir+"/padded ]; then printf '%03d\\n' $(cat "+dir+"/pwm); else cat "+dir+"/pwm; fi")
+		if sc.Fan.CmdChatty {
+			_ = os.WriteFile(filepath.Join(dir, "chatty"), []byte("1"), 0644)
+		}
 		if sc.Fan.CmdPadded {
 			// the tool prints fixed-width, zero-padded decimals (064)
 			_ = os.WriteFile(filepath.Join(dir, "padded"), []byte("1"), 0644)
 		}
-		cmdScript(filepath.Join(dir, "rpm.sh"), "p=$(cat "+dir+"/pwm); t=$(cat "+dir+"/theta); if [ \"$p\" -lt \"$t\" ]; then echo 0; else echo $((200+p*"+strconv.Itoa(sc.Plant.MaxRpm)+"/255)); fi")
+		cmdScript(filepath.Join(dir, "rpm.sh"), "if [ -e "+dir+"/chatty ]; then echo 'warning: tachometer polled too often' >&2; fi; p=$(cat "+dir+"/pwm); t=$(cat "+dir+"/theta); if [ \"$p\" -lt \"$t\" ]; then echo 0; else echo $((200+p*"+strconv.Itoa(sc.Plant.MaxRpm)+"/255)); fi")
 		cfg := configuration.FanConfig{ID: id, Curve: w.Curve.Id, NeverStop: sc.Fan.NeverStop,
 			Cmd: &configuration.CmdFanConfig{
 				SetPwm: &configuration.ExecConfig{Exec: filepath.Join(dir, "set.sh"), Args: []string{"%pwm%"}},
@@ -965,6 +970,7 @@ func genFan(r *rand.Rand, kinds []string) (FanSpec, int, int) {
 			f.HasPwm = r.Intn(3) > 0 // a third of the cmd fans are write-only (no getPwm command)
 			f.CmdTwice = r.Intn(3) == 0
 			f.CmdPadded = r.Intn(3) == 0
+			f.CmdChatty = r.Intn(3) == 0
 			f.CmdOneTool = !f.CmdTwice && r.Intn(2) == 0
 		}
 	}
